@@ -258,6 +258,26 @@ pub fn clone_current_read() -> usize {
     n
 }
 
+/// A clone of the `idx`-th action currently registered for `sig` (no shim events).
+pub fn action_of(sig: c_int, idx: usize) -> Option<Arc<Action>> {
+    let g = GlobalData::ensure();
+    let q = unsafe { ::std::mem::replace(&mut libc::vshim::ST::quiet, true) };
+    let w = g.data.read();
+    let mut out = None;
+    if let Some(slot) = w.signals.get(&sig) {
+        let mut i = 0;
+        for a in slot.actions.values() {
+            if i == idx {
+                out = Some(Arc::clone(a));
+            }
+            i += 1;
+        }
+    }
+    drop(w);
+    unsafe { libc::vshim::ST::quiet = q };
+    out
+}
+
 pub fn action_from<F: Fn(&siginfo_t) + Send + Sync + 'static>(f: F) -> Arc<Action> {
     Arc::from(f)
 }
